@@ -111,7 +111,8 @@ def asFn (j : Json) : Fn :=
         shape := .call }
 
 def jFn (f : Fn) : Json :=
-  Json.mkObj [("special", Json.bool f.special), ("name", Json.str f.name), ("qual", Json.str f.qual)]
+  Json.mkObj [("special", Json.bool f.special), ("name", Json.str f.name), ("qual", Json.str f.qual),
+    ("params", Json.arr (f.params.map Json.str).toArray)]
 
 def jErr (e : Err) : Json := Json.mkObj [("err", Json.str e.pyName)]
 def jOk (j : Json) : Json := Json.mkObj [("ok", j)]
